@@ -88,11 +88,11 @@ prop("C13", ["prims.go", "c13.go"],
 
 # ------------------------------------------------------------------------------------------------ C10
 READLINE = "bufio.Reader.ReadLine is an exact chunking function of (line length L, terminator in {LF, CRLF, none at EOF}, buffer size B >= 16): full-buffer prefix chunks with isPrefix, final chunk stripped of its terminator, then (nil,false,io.EOF)"
-JSONM = "encoding/json.Unmarshal into map[string]interface{} is a nondeterministic class: syntax error; non-object; object whose @message/@level/@timestamp are each absent / string / non-string plus <= 1 further key; time.Parse is an uninterpreted predicate"
+JSONM = "encoding/json.Unmarshal into map[string]interface{} is a nondeterministic class: syntax error; non-object; object whose @message/@level/@timestamp are each absent / string / non-string plus <= 1 further key; an object followed by trailing bytes is a syntax error for Unmarshal and one decoded value for json.Decoder.Decode (modelled over bytes.NewReader); time.Parse is an uninterpreted predicate"
 SCANNER = "bufio.Scanner: yields each line without terminator; a line over 64 KiB makes Scan return false with ErrTooLong and nothing further is read by the scanner"
 prop("C10", ["prims.go", "c10.go"],
-     [run("stderr", "harnessC10", ["single", "chunked", "hclog-json", "text"],
-          quick={"bound": "one stderr line of symbolic length <= 3 buffer-fulls, buffer size symbolic in [16, 2^20], terminator LF/CRLF/none; JSON classes with one extra key; text prefix classes"}),
+     [run("stderr", "harnessC10", ["single", "chunked", "hclog-json", "text", "object-then-trailing-bytes"],
+          quick={"bound": "one stderr line of symbolic length <= 3 buffer-fulls, buffer size symbolic in [16, 2^20], terminator LF/CRLF/none; JSON classes with one extra key, also a JSON object followed by further bytes (not JSON as a whole: a text line); text prefix classes"}),
       run("stderr-two-lines", "harnessC10two", ["first-line-single", "first-line-chunked", "first-line-exact-fit", "hclog-json", "text", "inside-panic-trace"],
           quick={"bound": "two stderr lines: the first a text line (plain / panic: / [LEVEL]) of symbolic length <= 2 buffers (shorter than, exactly, longer than the buffer), the second a one-piece line over the full class space; buffer size symbolic in [16, 2^20]"}),
       run("panic-trace", "harnessC10trace", ["trace-done"],
